@@ -50,6 +50,12 @@ P = {
  "C16": ("model_checking", "recorded outcomes of racing clients explained by TLC as a serial order of EventStore.tla (TraceSerial.tla)",
          "Clients race conflicting optimistic appends on shared streams/partitions of a real Database (1-4 buckets, 1-2 writer threads); every call with its outcome and the final latest versions/sequences are recorded; TLC searches TraceSerial.tla for a serial order of the reference model that reproduces every accepted call's sequences and versions, rejects every rejected call in some state of the order and ends in the recorded final state. No order = violation.",
          "Serial order need not respect real-time order of non-overlapping calls; per-event versions of an accepted call are derived from its reported latest stream version.", "5/C16", "h-store"),
+ "C04": ("model_checking", "TxAtomic.tla (record-by-record writes, commit record, index publication, truncation, crash/recovery) model-checked by TLC; writer parked through hooks inside real transactions while every read API runs; histories and crash images checked for group completeness",
+         "TLC checks NoPartialTx/InFlightInvisible/NoDanglingEntry on TxAtomic.tla for all interleavings of writer steps, syncs and crash cuts; for every transaction shape of the model the real writer thread is parked after each written event, before the commit record and before the reply while all read APIs are compared (nothing of the in-flight or failed transaction, everything committed); generated histories with failed transactions and crash images cut between events and commit are read back with every scan group checked for transaction completeness.",
+         "read_transaction is exercised with the first event's id (its documented argument); event lookup returning the single requested event is by design.", "5/C04", "h-store"),
+ "C15": ("model_checking", "Durability.tla two-step reader lookups x rollover sub-steps model-checked by TLC; every reachable (writer position at live lookup, writer position at pool lookup) pair forced on a real Database through hook-controlled threads; free-running stress",
+         "TLC explores Durability.tla (1 writer, readers with live-index step and reader-pool step, rollover sub-steps) with ReaderNeverMisses/PublishedMonotone and emits every reachable pair of writer positions at a reader's two steps; each pair is forced on a real Database by parking the writer thread at hook points through a real rollover and the reader between its two lookups, for each read API; reads must contain everything acknowledged before they started and a later read must not lose anything; plus 4 writers / 4 readers racing over small segments.",
+         "Windows between two hook points are covered by the stress part only; quick tier runs two of the six read APIs per schedule (rotating).", "5/C15", "h-store"),
 }
 
 NOT_YET = "not yet built in this session (planned: see DESIGN.md section 5); no claim is made"
